@@ -31,6 +31,7 @@ pub fn pred_accepts(p: Pred, from: usize, to: usize, l: &PLabel) -> bool {
         }
         Pred::ToParity(b) => (to % 2 == 1) == b,
         Pred::FromParity(b) => (from % 2 == 1) == b,
+        Pred::PanicAt(_) => true,
     }
 }
 
@@ -79,6 +80,63 @@ impl<const N: usize> Exec<N> {
             return Ok(Applied::Skipped);
         }
         let m = self.view.insts[src].as_ref().unwrap().m.clone();
+        if let Pred::PanicAt(k) = pred {
+            // the predicate panics at its k-th call; the panic reaches the caller, who goes on
+            if !m.is_present(v) {
+                return Ok(Applied::Skipped);
+            }
+            let g = self.gs[src].as_ref().unwrap();
+            let asked = std::cell::Cell::new(0_u32);
+            let r = guarded(|| {
+                g.slice_some(v, |_, _, _| {
+                    asked.set(asked.get() + 1);
+                    assert!(asked.get() < u32::from(k).max(1), "the predicate gives up");
+                    true
+                })
+            });
+            self.stats.bump(if r.is_err() { "probe.slice_predicate_panicked" } else { "probe.slice_predicate_panic_not_reached" });
+            drop(r);
+            // the source is unchanged
+            let probes = self.view.probe_labels();
+            let now = match observe(self.gs[src].as_ref().unwrap(), &probes, false) {
+                Ok(o) => o,
+                Err(c) => return fail("query.panic", clauses::PANIC_SLICE, format!("{c:?}")),
+            };
+            if let Some(d) = self.view.insts[src].as_ref().unwrap().last_obs.diff(&now) {
+                return fail("slice.source-changed", clauses::C13, format!("a slice whose predicate panicked changed its source: {d}"));
+            }
+            self.check_untouched(&[])?;
+            self.hash_step(s, "pred-panic");
+            return Ok(Applied::Done);
+        }
+        // C10: whatever slice() answers — also outside C13's domain (edges into collected vertices,
+        // more than 14 vertices) — it answers the same on a clone twin
+        if let Some((f, _)) = self.view.followers(src).into_iter().find(|(_, k)| *k == crate::view::LinkKind::Clone) {
+            let seed = seeds.first().copied().unwrap_or(self.view.cfg.hash_seed) ^ self.view.cfg.hash_xor;
+            let probes = self.view.probe_labels();
+            let mut outs = Vec::new();
+            for inst in [src, f] {
+                sodg::verif::collections::set_hash_seed(seed);
+                let g = self.gs[inst].as_ref().unwrap();
+                let r = guarded(|| g.slice_some(v, |a, b, l| pred_accepts(pred, a, b, &PLabel::from_label(&l))));
+                outs.push(match r {
+                    Ok(Ok(sl)) => match observe(&sl, &probes, true) {
+                        Ok(o) => format!("ok {:016x} keys {:?}", o.hash(), o.keys),
+                        Err(_) => "ok, sweep panics".to_string(),
+                    },
+                    Ok(Err(_)) => "err".to_string(),
+                    Err(_) => "panic".to_string(),
+                });
+            }
+            self.stats.bump("probe.slice_compared_on_clone_twin");
+            if outs[0] != outs[1] {
+                return fail(
+                    "clone.answer-differs",
+                    clauses::C10,
+                    format!("slice(ν{v}, {pred:?}) on instance {src}: {}; on its clone twin {f}: {}", outs[0], outs[1]),
+                );
+            }
+        }
         let Some(closure) = m.closure(v, &|f, t, l| pred_accepts(pred, f, t, l)) else {
             return Ok(Applied::Skipped);
         };
@@ -201,7 +259,16 @@ impl<const N: usize> Exec<N> {
         if let (Some(dst), Some(sl), Some(f)) = (keep, kept, &first) {
             if dst < self.gs.len() && self.gs[dst].is_none() {
                 let verts: Vec<(usize, Vec<(PLabel, usize)>)> = f.verts.iter().map(|v| (v.v, v.kids.clone())).collect();
-                let sm = RefGraph::slice_model(m.cap, m.n, &verts);
+                let mut sm = RefGraph::slice_model(m.cap, m.n, &verts);
+                if verts.iter().all(|(_, kids)| kids.is_empty()) {
+                    // a slice without edges has no groups whatever the rebuild order: the model is
+                    // exact, and the slice is a graph like any other (binds, new groups, exactness)
+                    sm = RefGraph::new(m.cap, m.n);
+                    for (x, _) in &verts {
+                        sm.add(*x);
+                    }
+                    self.stats.bump("probe.edgeless_slice_kept_with_exact_model");
+                }
                 let fam = self.view.next_family;
                 self.view.next_family += 1;
                 self.new_inst(dst, sl, sm.clone(), crate::view::Origin::Fresh, fam)?;
@@ -691,6 +758,11 @@ impl<const N: usize> Exec<N> {
                         return Ok(Applied::Skipped);
                     }
                     let Some(lt) = l.script_text() else { return Ok(Applied::Skipped) };
+                    // the script grammar trims its arguments: the label is what remains
+                    let lt = lt.trim().to_string();
+                    if lt.is_empty() {
+                        return Ok(Applied::Skipped);
+                    }
                     let Ok(parsed) = Label::from_str(&lt) else { return Ok(Applied::Skipped) };
                     let pl = PLabel::from_label(&parsed);
                     if !m.can_bind(va, vb, &pl) {
@@ -859,6 +931,117 @@ impl<const N: usize> Exec<N> {
         inst.last_obs = obs;
         inst.version += 1;
         inst.age += 1;
+        self.refresh_hints(i);
+        self.check_untouched(&[i])?;
+        self.hash_step(s, "");
+        Ok(Applied::Done)
+    }
+
+    /// A script with two variables (see Step::Script2). Only the allocator clauses of C05 are judged.
+    #[allow(clippy::too_many_arguments)]
+    pub(crate) fn do_script2(&mut self, i: usize, p: Id, l1: &PLabel, l2: &PLabel, na: &str, nb: &str, s: &Step) -> Result<Applied, Failure> {
+        let Some(p) = self.id(p) else { return Ok(Applied::Skipped) };
+        if !self.targetable(i) || !self.view.followers(i).is_empty() || na.is_empty() || nb.is_empty() || na == nb {
+            return Ok(Applied::Skipped);
+        }
+        self.refresh_hints(i);
+        let inst = self.view.insts[i].as_ref().unwrap();
+        if inst.poisoned || inst.m.adoptive || !inst.m.is_present(p) {
+            return Ok(Applied::Skipped);
+        }
+        let parse = |l: &PLabel| -> Option<(String, PLabel)> {
+            let t = l.script_text()?.trim().to_string();
+            if t.is_empty() {
+                return None;
+            }
+            let parsed = Label::from_str(&t).ok()?;
+            Some((t, PLabel::from_label(&parsed)))
+        };
+        let (Some((t1, q1)), Some((t2, q2))) = (parse(l1), parse(l2)) else { return Ok(Applied::Skipped) };
+        let m0 = inst.m.clone();
+        let pos = m0.returned.iter().next_back().map_or(0, |x| x + 1).max(inst.next_v);
+        let mut free = (pos..m0.cap).filter(|v| !m0.is_present(*v));
+        let (Some(pa), Some(pb)) = (free.next(), free.next()) else { return Ok(Applied::Skipped) };
+        {
+            let mut mm = m0.clone();
+            mm.add(pa);
+            mm.add(pb);
+            if !mm.can_bind(p, pa, &q1) {
+                return Ok(Applied::Skipped);
+            }
+            mm.bind(p, pa, &q1);
+            if !mm.can_bind(pa, pb, &q2) {
+                return Ok(Applied::Skipped);
+            }
+        }
+        let text = format!("ADD(${na}); ADD(${nb});\nBIND(ν{p}, ${na}, {t1}); BIND(${na}, ${nb}, {t2});");
+        self.view.see_label(&q1);
+        self.view.see_label(&q2);
+        let g = self.gs[i].as_mut().unwrap();
+        let r = guarded(|| Script::from_str(&text).deploy_to(g));
+        match r {
+            Ok(Ok(_)) => {}
+            Ok(Err(_)) => {
+                self.stats.bump("script.err");
+                self.view.insts[i].as_mut().unwrap().poisoned = true;
+                return Ok(Applied::Done);
+            }
+            Err(c) => return fail("panic.in-contract-call", clauses::PANIC_NEXT, format!("script {text:?} panicked: {c:?}")),
+        }
+        self.stats.bump("script.two_variables_deployed");
+        let probes = self.view.probe_labels();
+        let g = self.gs[i].as_ref().unwrap();
+        let obs = match observe(g, &probes, false) {
+            Ok(o) => o,
+            Err(c) => return fail("query.panic", clauses::PANIC_Q, format!("{c:?}")),
+        };
+        let appeared: Vec<usize> = obs.keys.iter().copied().filter(|k| !m0.is_present(*k)).collect();
+        let a = guarded(|| g.kid(p, q1.to_label())).ok().flatten();
+        let b = a.and_then(|a| guarded(|| g.kid(a, q2.to_label())).ok().flatten());
+        let fresh = |x: usize| !m0.is_present(x) && !m0.returned.contains(&x) && x < m0.cap;
+        let (Some(a), Some(b)) = (a, b) else {
+            return fail(
+                "script.variable-collides-with-present-vertex",
+                clauses::C05,
+                format!("script {text:?}: the edges it was to make are not there; keys before {:?}, after {:?}", m0.keys(), obs.keys),
+            );
+        };
+        if appeared.len() != 2 || a == b || !fresh(a) || !fresh(b) || !appeared.contains(&a) || !appeared.contains(&b) {
+            return fail(
+                "script.variable-collides-with-present-vertex",
+                clauses::C05,
+                format!(
+                    "script {text:?}: ${na} became ν{a} and ${nb} became ν{b}; each should be one new vertex; keys before {:?}, after {:?}, handed out before {:?}",
+                    m0.keys(), obs.keys, m0.returned
+                ),
+            );
+        }
+        let mut m = m0;
+        m.add(a);
+        m.add(b);
+        m.bind(p, a, &q1);
+        m.bind(a, b, &q2);
+        m.note_returned(a);
+        m.note_returned(b);
+        let inst = self.view.insts[i].as_mut().unwrap();
+        if obs.keys != m.keys() || check_edges(&obs, &m, &probes).is_err() {
+            self.stats.bump("script.translation_differs");
+            inst.poisoned = true;
+            return Ok(Applied::Done);
+        }
+        inst.oplog.extend(
+            [Op::Add(a), Op::Add(b), Op::Bind(p, a, q1.clone()), Op::Bind(a, b, q2.clone())]
+                .into_iter()
+                .map(|op| LogOp { op, add_present: false }),
+        );
+        inst.m = m;
+        inst.last_obs = obs;
+        inst.version += 1;
+        inst.age += 1;
+        for t in [a, b] {
+            let k = self.view.fresh_var();
+            self.view.set_var(k, t);
+        }
         self.refresh_hints(i);
         self.check_untouched(&[i])?;
         self.hash_step(s, "");
